@@ -729,8 +729,12 @@ where
         self: &'a mut Pin<&mut Self>,
         cx: &mut Context<'_>,
     ) -> Poll<Option<Result<(), C::Error>>> {
-        while self.channel_pin_mut().poll_ready(cx)?.is_pending() {
+        if self.channel_pin_mut().poll_ready(cx)?.is_pending() {
+            // Flush once and ask again. If the channel is still not ready it has registered our
+            // waker, so return control to the executor: retrying within this poll would spin
+            // forever on a transport whose readiness does not depend on flushing.
             ready!(self.channel_pin_mut().poll_flush(cx)?);
+            ready!(self.channel_pin_mut().poll_ready(cx)?);
         }
         Poll::Ready(Some(Ok(())))
     }
